@@ -6,6 +6,7 @@ import vrt_runner, mu_common
 PID = "C12"
 PROP_V = "Props/Properties_C12.v"
 GEN_MODULES = ["Consts", "Sites"]
+FLOW_FILES = ['nsync_semaphore_futex.c']
 REPLAY_HINT = "VRT_SEED=<seed> VRT_INJECT=<pct> _work/h/sem_mix  (add VRT_TRACE=<file>; replay through the model with coq/_rp_sem_replay/sem_replay <file> coq/Gen/Sites.json)"
 TRUSTED_BASE = ["the kernel futex contract is MODELLED (harness/rt/vrt.c and Model/SemModel.v): atomic compare-and-block, FUTEX_WAKE wakes "
                 "at most n sleepers, absolute CLOCK_REALTIME deadline, EINVAL for an invalid timespec, arbitrary EINTR / early ETIMEDOUT",
